@@ -285,6 +285,29 @@ impl ProofX {
                 let mw = verified.confirm_value(&leaf_wrong);
                 let mn = verified.confirm_nonexistence(g);
                 self.calls += 3;
+                // the key claimed with the value hash of every OTHER leaf of the trie: false, and the
+                // same answer as the path proof covering the key gives
+                if cover.is_some() {
+                    for (ok_, oh) in t.set.iter() {
+                        if ok_ == g {
+                            continue;
+                        }
+                        let claim = LeafData {
+                            key_path: *g,
+                            value_hash: *oh,
+                        };
+                        let m = verified.confirm_value(&claim);
+                        let s1 = singles[cover.unwrap()].confirm_value(&claim);
+                        self.calls += 2;
+                        if !matches!(m, Ok(false)) || !matches!(s1, Ok(false)) {
+                            out.violation = Some(v(
+                                "multi-confirm",
+                                format!("S={mask:#x} Q={q:?} key #{gi} present={} claimed with the value hash of another leaf ({}): multi confirm_value={m:?}, single={s1:?}, both must be Ok(false)", present.is_some(), hex(&ok_[..4])),
+                            ));
+                            return out;
+                        }
+                    }
+                }
                 match cover {
                     Some(ci) => {
                         let sv = singles[ci].confirm_value(&leaf_true);
@@ -772,10 +795,27 @@ struct Sound<'a> {
 
 impl<'a> Sound<'a> {
     fn new(t: &'a Trie, pool: &Pool) -> Self {
-        Sound {
-            t,
-            probes: pool.leaves.clone(),
+        // every (key, value hash) claim over the family: in particular an ABSENT key claimed with
+        // the value hash of a leaf that exists under another key (distinct keys may well carry equal
+        // values), and a present key claimed with another leaf's value hash
+        let mut probes = pool.leaves.clone();
+        for (j, k) in t.fam.iter().enumerate() {
+            for (i, o) in t.fam.iter().enumerate() {
+                if i != j && t.set.contains_key(o) {
+                    probes.push(LeafData {
+                        key_path: *k,
+                        value_hash: vh(i, 0),
+                    });
+                }
+            }
         }
+        for (_, h) in t.set.iter().take(2) {
+            probes.push(LeafData {
+                key_path: [0xEE; 32],
+                value_hash: *h,
+            });
+        }
+        Sound { t, probes }
     }
 
     fn truth_value(&self, l: &LeafData) -> bool {
